@@ -331,6 +331,59 @@ def build(P):
                               idx.lookup(f"{OF}:divide_objects").fq: dict_cut("divide_objects"),
                               idx.lookup(f"{OF}:divide_objects_to_num").fq: dict_cut("divide_objects_to_num"),
                               idx.lookup(f"{PF}:PassFailResult.evaluate").fq: pf_eval})
+    # ---------------------------------------------------------------- evaluate_frame with the detection metrics on: the frame's score is computed from the FILTERED lists
+    import z3 as _z3
+    DIVD = _z3.Function("divided_dict", I, I, I)
+
+    def named_dict(tag):
+        def f(it, cf):
+            objs, tl = cf.vars["objects"], cf.vars["target_labels"]
+            tz = tl.z if getattr(tl, "z", None) is not None else _z3.IntVal(0)
+            return VOpaque("labeldict", DIVD(_z3.IntVal(tag), objs.z, ) if False else _z3.Function(f"divided_{tag}", I, I, I)(objs.z, tz))
+        return f
+
+    def same_dict(interp, e, fr):
+        a = interp.ev(e.args[0], fr)
+        tag = interp.ev(e.args[1], fr).const
+        objs, tl = interp.ev(e.args[2], fr), interp.ev(e.args[3], fr)
+        tz = tl.z if getattr(tl, "z", None) is not None else _z3.IntVal(0)
+        return VBool(a.z == _z3.Function(f"divided_{tag}", I, I, I)(objs.z, tz))
+    P.install(lambda it: it.spec_funcs.update(is_divided=same_dict))
+
+    def make_frame_result_det(it):
+        o = make_frame_result(it)
+        ms = it.ctx.new_cell("obj", {}, idx.lookup("evaluation.metrics.metrics:MetricsScore"))
+        it.ctx.cell(ms).update(detection_config=plain_obj(it), tracking_config=NONE, prediction_config=NONE, classification_config=NONE, seen_results=NONE, seen_num_gt=NONE)
+        it.ctx.cell(o)["metrics_score"] = ms
+        return o
+    eval_det = Contract("evaluation.metrics.metrics:MetricsScore.evaluate_detection", params={}, assigns={"self.seen_results": "object_results", "self.seen_num_gt": "num_ground_truth"})
+    TL_ = "self.pass_fail_result.critical_object_filter_config.target_labels"
+    P.verify(f"{FR}:PerceptionFrameResult.evaluate_frame", name="PerceptionFrameResult.evaluate_frame[detection metrics on]",
+             contract=Contract(
+                 f"{FR}:PerceptionFrameResult.evaluate_frame", cut=False,
+                 params={"self": make_frame_result_det, "previous_result": NONE},
+                 requires=per_label(FPD),
+                 modifies=[("field", "FrameGroundTruth", "objects"), ("attr", "self", "object_results"),
+                           ("attr", "self.pass_fail_result", "seen_results"), ("attr", "self.pass_fail_result", "seen_ground_truths"),
+                           ("attr", "self.metrics_score", "seen_results"), ("attr", "self.metrics_score", "seen_num_gt")],
+                 ensures=E("frame_score_uses_the_filtered_results_divided_by_the_critical_target_labels",
+                           f"is_divided(self.metrics_score.seen_results, 'objects', self.object_results, {TL_})",
+                           "frame_ground_truth_counts_are_those_of_the_filtered_ground_truths",
+                           f"is_divided(self.metrics_score.seen_num_gt, 'counts', self.frame_ground_truth.objects, {TL_})",
+                           "pass_fail_sees_the_filtered_lists",
+                           "self.pass_fail_result.seen_results is self.object_results and self.pass_fail_result.seen_ground_truths is self.frame_ground_truth.objects")),
+             extra_contracts={idx.lookup(f"{OF}:filter_object_results").fq: named_filter("filter_object_results", "object_results", RT, "kept_results"),
+                              idx.lookup(f"{OF}:filter_objects").fq: named_filter("filter_objects", "objects", TSList(DO), "kept_objects"),
+                              idx.lookup(f"{OF}:divide_objects").fq: Contract(f"{OF}:divide_objects", params={}, returns=named_dict("objects")),
+                              idx.lookup(f"{OF}:divide_objects_to_num").fq: Contract(f"{OF}:divide_objects_to_num", params={}, returns=named_dict("counts")),
+                              idx.lookup(f"{PF}:PassFailResult.evaluate").fq: pf_eval,
+                              idx.lookup("evaluation.metrics.metrics:MetricsScore.evaluate_detection").fq: eval_det})
+    # ---------------------------------------------------------------- what "critical region" means: C10's _is_target_object with a registry, re-verified here
+    # (x/y bounds and the planar distance ring are judged on the ego-frame position; a 3-D range or a map-frame position would count objects outside the region)
+    n0_ = len(P.tasks)
+    C10.build(P, tf_options=(True,), filters=False)
+    P.tasks[n0_:] = [t for t in P.tasks[n0_:] if t.name.startswith("_is_target_object")]
+    P.min_obligations = 150
     P.trust("matching score objects of a result (center_distance, plane_distance, iou_2d, iou_3d) are modelled by their `value` only")
     P.assume("get_label_threshold is a function of (label, target labels, threshold list): named here, meaning verified under C10")
     P.uncover("get_negative_objects / PassFailResult.evaluate / evaluate_frame: see the tasks below if present; divide_objects(_to_num) are C04/C13")
